@@ -38,7 +38,7 @@ def main(argv=None):
         mod = importlib.import_module("checks.%s" % pid)
         chk = Check(pid, tier=tier, seed=seed, only=only)
         mod.run(chk)
-        if tier == "thorough" and hasattr(mod, "selftest") and only is None:
+        if tier == "thorough" and only is None:
             from . import selftest
             selftest.run_for(pid, mod, chk)
         rc = chk.finish(write_evidence=not args.no_evidence)
